@@ -9,6 +9,36 @@ E3 = 'E3 io.BytesIO read/write/seek/tell/getvalue model (pyvc/streams.py)'
 E4 = 'E4 bytes.decode/str.encode are uninterpreted partial functions raising UnicodeError/LookupError'
 E5 = 'E5 parameter expressions are total functions of the context of the declared type (may raise KeyError/AttributeError only where stated)'
 
+def native_tables(pid, which):
+    """exhaustive native enumeration of finite tables of the tree under verification"""
+    def extra(src, tier, seed):
+        from pyvc import replay
+        out = {'tables': [], 'violations': [], 'bounded': []}
+        try:
+            C = replay.import_repo()
+        except Exception as e:
+            out['violations'].append('VIOLATION property=%s replay=- obligation=table/import (importing construct raises %s: %s)' % (pid, type(e).__name__, e))
+            return out
+        rows = []
+        if 'tables' in which:
+            from contracts.tables import enumerate_tables
+            rows += enumerate_tables(C)
+        if 'aliases' in which:
+            from contracts.aliases import enumerate_aliases
+            rows += enumerate_aliases(C)
+        for name, n, bad in rows:
+            out['tables'].append({'table': name, 'entries': n, 'mismatches': len(bad), 'exhaustive': True})
+            if bad:
+                import os, json, hashlib
+                d = os.path.join(os.environ.get('PYVC_OUT', os.path.dirname(os.path.abspath(__file__))), 'replay', pid)
+                os.makedirs(d, exist_ok=True)
+                fn = os.path.join(d, 'table-' + hashlib.sha1(name.encode()).hexdigest()[:10] + '.json')
+                json.dump({'property': pid, 'obligation': 'table/' + name, 'mismatches': [str(b) for b in bad][:50]}, open(fn, 'w'), indent=1)
+                out['violations'].append('VIOLATION property=%s replay=%s obligation=table/%s' % (pid, fn, name.replace(' ', '-')))
+        return out
+    return extra
+
+
 GENERIC_NOTE = ('every _parse/_build/_sizeof/_decode/_encode/_actualsize body of construct/core.py (core classes; Pickled, Numpy, NamedTuple, Timestamp, '
                 'Slicing, Indexing, CompressedLZ4, Encrypted*, Rebuffered, Expr* adapters are out of scope) is executed symbolically from the real AST '
                 'against the Construct interface contract, assuming only that contract of its sub-constructs (structural induction over construct trees)')
@@ -16,7 +46,7 @@ GENERIC_NOTE = ('every _parse/_build/_sizeof/_decode/_encode/_actualsize body of
 NOT_APPLICABLE = {}
 
 PROPS = {
-    'C03': dict(functional=True, generic=False, level='proof',
+    'C03': dict(functional=True, generic=False, level='proof', extra=native_tables('C03', ('tables', 'aliases')),
                 level_text='Each function under contract is proved, path by path and for all inputs (symbolic values, buffers, positions; loops by invariant), to build exactly the bytes / parse exactly the value and extent that a specification written from the wire format prescribes, and to reject exactly what the specification rejects. Functions covered so far are listed in the evidence (functions_under_contract); constructs not listed there are not yet covered by this check.',
                 level_note='Trusted: the VC generator pyvc and its Python-subset semantics (DESIGN.md 1.3), the solvers, the assumed contracts of CPython built-ins E1 struct (floats uninterpreted), E2 int.to_bytes/from_bytes, E3 io.BytesIO. Module tables are enumerated natively.',
                 trusted_base=[E1, E2, E3],
